@@ -42,10 +42,37 @@ SHAPE_TYPE = dict(SEG="SEG2", TRI="TRI3", QUAD="QUAD4", TETRA="TETRA4", HEXA="HE
 SHAPE_DIM = dict(SEG=1, TRI=2, QUAD=2, TETRA=3, HEXA=3, PRISM=3)
 
 
-def doc_monomials(shape, nPg):
+_DOC_FN = dict(TRI="_Triangle", QUAD="_Quadrangle", TETRA="_Tetrahedron", HEXA="_Hexahedron", PRISM="_Prism")
+
+
+def docstring_order(shape, nPg):
+    """order documented for a count that is not in the transcribed table (a rule added later): read from the
+    'available [...]' / 'order ... = [...]' lists of the docstring of the rule's function; None when absent"""
+    import re
+
+    doc = getattr(Gauss, _DOC_FN[shape]).__doc__ or ""
+    lists = re.findall(r"(available|order[^=\[]*)=?\s*\[([0-9,\s]+)\]", doc)
+    named = {k.strip(): [int(x) for x in v.replace(" ", "").split(",") if x] for k, v in lists}
+    avail = named.get("available")
+    if not avail or nPg not in avail:
+        return None
+    i = avail.index(nPg)
+    orders = {k: v for k, v in named.items() if k.startswith("order") and len(v) == len(avail)}
+    if shape == "PRISM":
+        ax = [v for k, v in orders.items() if "X" in k]
+        tri = [v for k, v in orders.items() if "Y" in k]
+        return (tri[0][i], ax[0][i]) if ax and tri else None
+    return next(iter(orders.values()))[i] if orders else None
+
+
+def doc_monomials(shape, nPg, order=None):
     dim = SHAPE_DIM[shape]
     if shape == "SEG":
         return orc.monomials(1, 2 * nPg - 1)
+    if order is not None:
+        if shape == "PRISM":
+            return [e for e in orc.monomials(3, order[0] + order[1]) if e[0] + e[1] <= order[0] and e[2] <= order[1]]
+        return orc.monomials(dim, order)
     if shape == "PRISM":
         dt, da = DOC[shape][nPg]
         return [e for e in orc.monomials(3, dt + da) if e[0] + e[1] <= dt and e[2] <= da]
@@ -74,9 +101,31 @@ def enum_tables(tier):
             yield dict(via="matrixType", elemType=et, matrixType=mt, byname=True)
 
 
+def enum_offered(tier):
+    for shape, et in SHAPE_TYPE.items():
+        for n in range(1, 41):
+            if shape == "SEG" or n not in DOC[shape]:
+                yield dict(via="nPg", elemType=et, nPg=n, probe=True)
+
+
 def check_tables(case, rec):
     shape = orc.shape_of(case["elemType"])
-    coord, w = rule_for(case)
+    order = None
+    if case.get("probe"):
+        # every count the constructor accepts is a rule on offer; counts it refuses (NotImplementedError) are not
+        try:
+            coord, w = rule_for(case)
+        except NotImplementedError:
+            rec.label(f"probe:{shape}:refused")
+            rec.nontrivial(False)
+            return
+        rec.label(f"probe:{shape}:offered")
+        if shape != "SEG":
+            order = docstring_order(shape, int(case["nPg"]))
+            rec.require(order is not None, "known_rule", f"{shape} nPg={case['nPg']} is accepted by Gauss() but is neither in the documented "
+                        f"table nor in the docstring's available/order lists", shape=shape, nPg=int(case["nPg"]))
+    else:
+        coord, w = rule_for(case)
     nPg = w.size
     sig = dict(shape=shape, nPg=int(nPg))
     rec.label(f"rule:{shape}{nPg}", f"via:{case['via']}")
@@ -85,10 +134,10 @@ def check_tables(case, rec):
                 f"{shape} {nPg}-point rule has a point outside the reference element", **sig)
     meas = orc.REF_MEASURE[shape]
     rec.close(w.sum() - meas, meas, TOL, "weight_sum", f"{shape} nPg={nPg} sum(w)={w.sum()!r}", **sig)
-    if shape != "SEG":
+    if shape != "SEG" and order is None:
         rec.require(nPg in DOC[shape], "known_rule", f"{shape} nPg={nPg} is not a documented rule", **sig)
     nt = 0
-    for e in doc_monomials(shape, nPg):
+    for e in doc_monomials(shape, nPg, order):
         val = float(np.sum(w * np.prod(coord ** np.array(e)[None, :], axis=1)))
         ex = orc.ref_monomial_integral(shape, e)
         rec.close(val - ex, meas, TOL, "monomial", f"{shape} nPg={nPg} monomial {e}: {val!r} vs {ex!r}",
@@ -228,6 +277,7 @@ def check_rank(case, rec):
 
 SUBS = [
     Sub("tables", check_tables, enum=enum_tables, doc="all rules x monomials up to documented degree"),
+    Sub("offered_counts", check_tables, enum=enum_offered, doc="every integer count 1..40 per shape: whatever Gauss() accepts is a rule on offer (order from the docstring lists)"),
     Sub("mesh", check_mesh, gen=mesh_cases, quick=300, thorough=1500, shards=8),
     Sub("rank", check_rank, gen=rank_cases, quick=150, thorough=600, shards=6),
 ]
